@@ -237,8 +237,9 @@ class VCSym(VCBase):
         self._undo.append((obj, attr, old, missing))
         setattr(obj, attr, value)
 
-    def loop(self, module, qualname, ordinal, inv, havoc=None, variant=None, name=None, on_exit=None):
-        spec = instrument.LoopSpec(module, qualname, ordinal, inv, havoc, variant, name, on_exit)
+    def loop(self, module, qualname, ordinal, inv, havoc=None, variant=None, name=None, on_exit=None,
+             ghost_init=None, ghost_next=None):
+        spec = instrument.LoopSpec(module, qualname, ordinal, inv, havoc, variant, name, on_exit, ghost_init, ghost_next)
         instrument.ACTIVE_LOOPS[spec.key] = spec
         return spec
 
